@@ -416,6 +416,14 @@ def run_ctx(concepts, case, spec):
     want_fill = fractions.Fraction(sum(popcount(r) for r in sh.rows), sh.n * sh.m)
     if obs['fill_ratio'][0] != want_fill:
         COL.violation('driver', 'agreement:fill_ratio-differs-from-table', str(want_fill), str(obs['fill_ratio'][0]))
+    # returned containers belong to the caller
+    b = call(lambda: ctx.bools)
+    if b is not RAISED and isinstance(b, list):
+        b.reverse()
+        b.append(())
+        d3 = call(ctx.definition)
+        call(lambda: ctx == common.build_or_skip(concepts, case))
+        COL.count('returned_bools_edited_then_asked_again')
     # crc32 with other encodings, after the default one was computed on the same objects
     for enc in ('latin-1', 'utf-16', 'utf-8'):
         try:
